@@ -12,7 +12,7 @@ from vf.simk.world import World, Thread, FD, Mapping, oserr
 ID = "C03"
 LEVEL = "fault_enumeration"
 ALT_MOUNT = True          # run once more with procfs mounted at /hostproc (vf/child.py)
-DEVS = ("vanish", "zombie", "eacces", "eperm", "halfgone", "dying")
+DEVS = ("vanish", "zombie", "eacces", "eperm", "halfgone", "dying", "recycle")
 PSUTIL_ERRS = ("NoSuchProcess", "ZombieProcess", "AccessDenied")
 CACHED_OK = {"pid", "create_time"}
 # operations about *other* processes / the object's liveness: they have a
@@ -83,6 +83,13 @@ def apply_dev(world, dev, kind, subj, pid, persistent=False):
     elif dev == "dying":
         if pid in world.procs:
             world.procs[pid].dying = True
+    elif dev == "recycle":
+        # the process is gone and its pid already belongs to a newcomer: files opened before answer ESRCH, everything looked up
+        # from now on is the newcomer's
+        if pid in world.procs:
+            old = world.procs[pid]
+            world.vanish(pid)
+            world.spawn(pid, ppid=1, comm=b"newcomer", start=old.start + 5000)
     elif dev in ("eacces", "eperm"):
         if not persistent:
             raise oserr(errno.EACCES if dev == "eacces" else errno.EPERM, str(subj))
@@ -309,7 +316,7 @@ class Oracle:
             if info.get("pid") != objpid:
                 return ("wrong-pid:%s:%s" % (op, cls), "%s raised %s pid=%r, object pid=%r faults=%r"
                         % (op, cls, info.get("pid"), objpid, faults))
-            need = {"NoSuchProcess": {"vanish", "halfgone", "dying"}, "ZombieProcess": {"zombie"},
+            need = {"NoSuchProcess": {"vanish", "halfgone", "dying", "recycle"}, "ZombieProcess": {"zombie"},
                     "AccessDenied": {"eacces", "eperm"}}[cls]
             if not (kinds & need):
                 if (cls == "NoSuchProcess" and "PID has been reused" in info.get("str", "")
@@ -327,6 +334,8 @@ class Oracle:
         v = out[1]
         if not applied:
             return None
+        if "recycle" in kinds:
+            return None       # (what is read after the take-over is the newcomer's: only the error contract is judged)
         accept = [self.base.outcome[1]] if self.base.outcome[0] == "ok" else []
         pre = [(p, d) for p, d in faults if d in ("vanish", "zombie")]
         lenient = False
